@@ -15,7 +15,10 @@ CLAIMS = {
                 'wait queue and timing primitives; each path proves exact resume dates against '
                 'an independent clock model and the loop-level clock obligations. Coincidences '
                 'of dates are single points a test would have to guess; here they are branch '
-                'outcomes that are always explored.',
+                'outcomes that are always explored. Families many / many_sd run 6-7 sleepers '
+                'through every weak ordering of the pending dates on both wait queue backends; '
+                'float_single / float_pair redo the exact-date obligations on IEEE doubles (z3 '
+                'floating point theory).',
         'note': _NOTE,
     },
     'C04': {
@@ -152,9 +155,10 @@ CLAIMS = {
                 '(times by solver), identical traces of repeated real executions under heap '
                 'perturbation in the concrete validation run, and a second exploration under '
                 'python -O whose paths (identified by their free decisions) must carry identical '
-                'symbolic traces.',
-        'note': _NOTE + '; float absorption (now + tiny == now) and hash-seed effects on str '
-                        'hashing are outside the exact-arithmetic claim',
+                'symbolic traces; float_absorb repeats the backend differential on IEEE doubles, '
+                'where a positive delay can be absorbed by the date.',
+        'note': _NOTE + '; hash-seed effects on str hashing are outside the claim; IEEE doubles '
+                        'only in family float_absorb',
     },
     'C19': {
         'text': 'Request dates, amounts, priorities, capacities (and filters / kinds as finite '
